@@ -58,6 +58,7 @@ func vpC12Health(maxThr int) {
 		time.Sleep(tm.H)
 		vpQuiesce()
 		vpAssert("C12.re-elected-after", s.e.IsLeader() && s.cb.promotes == 2)
+		vpAssert("C06.filled-after-health-demotion", s.e.IsLeader())
 	} else {
 		vpAssert("C12.never-before-n", s.cb.demotes == 0 && s.e.IsLeader())
 	}
